@@ -82,7 +82,7 @@ static void dec_spq(const void* base, char* out, size_t cap) {
   n += (size_t)snprintf(out + n, cap - n, "[");
   const spsc_node_t* h = *(spsc_node_t* const*)&c->queue.head;
   int first = 1, guard = 0;
-  for (const spsc_node_t* x = h ? *(spsc_node_t* const*)&h->next : NULL; x && n + 48 < cap && guard < 64;
+  for (const spsc_node_t* x = h ? *(spsc_node_t* const*)&h->next : NULL; x && n + 48 < cap && guard < 200;
        x = *(spsc_node_t* const*)&x->next, guard++) {
     n += (size_t)snprintf(out + n, cap - n, "%s\"%s\"", first ? "" : ",", vrt_name_of(x->data));
     first = 0;
